@@ -284,7 +284,7 @@ def run_attempt(w, cfg, root, tape, *, attempt, cleanup, interruption=None, inpu
     if new_process:
         C.reset_process_globals()  # the previous attempt's process is gone, and its module state with it
     sim = C.new_sim(tape, root, preempt=cfg.get("preempt", 0.3), fs_kwargs={"buffer_size": cfg.get("buffer_size")},
-                    same_process=not new_process)
+                    same_process=not new_process, step_cap=C.step_cap_for(w))
     sim.attempt = attempt
     fs = sim.fs
     fault = None
